@@ -14,19 +14,31 @@
         increasing (`arc_beziers_ranges`), connectedness (`arc_beziers_connected`), pieces begin and
         end on the arc at their range ends (`arc_beziers_endpoints_on_arc_partial`, for
         |sweep| ≤ 2π) and the witness that this FAILS beyond a full turn
-        (`arc_beziers_beyond_turn_witness`), control points on the tangents (`quad_ctrl_on_tangents`,
-        `cubic_ctrl_on_tangents`).
-  * §2  `from_svg_arc`: sweep direction and size bound hold for ANY angle function, hence also for
-        the code as it is (`svg_arc_sweep_sign`); radii (`svg_arc_radii_scaled`).
-  * §3  `from_svg_arc` with an exact angle function starts and ends at the given points
-        (`svg_arc_endpoints`), round trip (`svg_arc_roundtrip_partial`).  This is a theorem about
-        the algorithm: lyon calls euclid's polynomial `fast_atan2`, which is NOT an exact angle
-        function (`fast_atan2_not_exact_witness`, pure rational arithmetic), so the code's arcs miss
-        the end points by up to 2·10⁻⁴·radius: finding C13-fast-atan2-endpoint-drift (oracle).
+        (`arc_beziers_beyond_turn_witness`, open finding C13-bezier-sweep-clamped), control points
+        on BOTH end tangents (`quad_ctrl_on_tangents`, `cubic_ctrl_on_tangents`).
+  * §2  `from_svg_arc`: sweep direction and size bound (`svg_arc_sweep_sign`) and radii
+        (`svg_arc_radii`) hold for any angle function.
+  * §3  `from_svg_arc` starts and ends at the given points (`svg_arc_endpoints`), scaled radii
+        (`svg_arc_radii_scaled`), round trip incl. the large-arc flag (`svg_arc_roundtrip`).  The angle
+        function of the code is libm `atan2` (`exactAngle`); its laws and those of
+        `sqrt/sin/cos/%` are the hypotheses `ExactTrig exactAngle`, discharged for `ℝ`
+        (`exactTrig_real`, with `Complex.arg` as `atan2`).
+  * §4  why euclid's `angle_from_x_axis` must not be used there: `fast_atan2_not_exact_witness`,
+        `fast_atan2_diagonal_witness`.
 
-  Not theorems (left to the oracle, named gaps): that the large-arc flag selects |sweep| ≥ π;
-  the distance between the Bézier pieces and the ellipse (3.2·10⁻³ / 2·10⁻³ of the radius,
-  measured); anything about IEEE rounding.
+  History.  Until /repo a39176c6 `from_svg_arc` used euclid's polynomial `fast_atan2`; the arc
+  then missed the given points by up to 2·10⁻⁴·radius (f64: from (1000,1000) to (−1000,1000),
+  r 1500, rot 0.3, large, ccw → `arc.to()` = (−1000.112, 1000.100)); `svg_arc_endpoints` was a
+  theorem about the algorithm only.  Until /repo a403d79f the quadratic control point came from
+  `Line::intersection` of the end tangents with an absolute parallelism threshold
+  (`|rx·ry·sin step| ≤ S::EPSILON` ⇒ ctrl = from: f32 radii (0.01,0.01), sweep π/2 → two chords,
+  mid points at 0.943·r; formerly `quad_ctrl_tiny_radii_witness`) and cancellation on absolute
+  positions (f32 centre 0, r 100, start 0.3, sweep 10⁻⁶ → ctrl 5.5 units from a 10⁻⁴ long arc).
+  Until /repo 20bcfb88 / 8ce8d2e3 `WithSvg::arc` recomputed the start angle as a polar angle /
+  with `fast_atan2`.  The oracle keeps the classes of these (now fixed) findings active.
+
+  Not theorems (left to the oracle, named gaps): the distance between the Bézier pieces and the
+  ellipse (3.2·10⁻³ / 2·10⁻³ of the radius, measured); anything about IEEE rounding.
 -/
 import LyonVerif.Model.Geom.SvgArc
 import LyonVerif.Lemmas.Field
@@ -34,6 +46,7 @@ import Mathlib.Algebra.Order.Ring.Abs
 import Mathlib.Tactic.NormNum
 import Mathlib.Analysis.SpecialFunctions.Trigonometric.Inverse
 import Mathlib.Analysis.Real.Pi.Bounds
+import Mathlib.Analysis.SpecialFunctions.Complex.Arg
 
 set_option linter.unusedSectionVars false
 set_option linter.unusedVariables false
@@ -279,68 +292,42 @@ theorem arc_beziers_beyond_turn_witness (arc : Arc K) (hpi : 0 < (Transc.pi : K)
 
 /-! ### control points -/
 
-/-- the point computed by `Line::intersection` lies on both lines (when the determinant is not 0) -/
-theorem line_intersection_on_lines (p1 v1 p2 v2 : P K) (hdet : v1.cross v2 ≠ 0) :
-    (lineIntersectionPt p1 v1 p2 v2 - p1).cross v1 = 0
-    ∧ (lineIntersectionPt p1 v1 p2 v2 - p2).cross v2 = 0 := by
-  have hd : v1.x * v2.y - v1.y * v2.x ≠ 0 := by simpa [P.cross] using hdet
-  have hi : (v1.x * v2.y - v1.y * v2.x) * (1 / (v1.x * v2.y - v1.y * v2.x)) = 1 := by
-    field_simp
+theorem angleAt_succ (arc : Arc K) (step : K) (i : Nat) :
+    angleAt arc step (i+1) = angleAt arc step i + step := by
+  simp only [angleAt, ofNat_eq]; push_cast; ring
+
+/-- **the quadratic control point `from + tangent(a1)·tan(δ/2)` lies on BOTH end tangents**: on the
+tangent at the piece's start (angle `a1`) by construction, and on the tangent at its end (angle
+`a1 + δ`) by the half-angle identity.  Laws used (hypotheses, all true of `Real.sin/cos/tan`):
+`cos² + sin² = 1` at `a1`, `δ` and the x-rotation, the addition formulas at `a1 + δ`, and
+`tan(δ·0.5)·sin δ = 1 − cos δ` (`Scalar.half = 1/2`: `sc_half`).  (`quadPiece` uses `a1 = angleAt i`, `a1 + δ = angleAt (i+1)` with
+`δ = step`: `angleAt_succ`.) -/
+theorem quad_ctrl_on_tangents (arc : Arc K) (a1 d : K)
+    (hx : Transc.cos arc.xrot * Transc.cos arc.xrot + Transc.sin arc.xrot * Transc.sin arc.xrot = 1)
+    (h1 : Transc.cos a1 * Transc.cos a1 + Transc.sin a1 * Transc.sin a1 = 1)
+    (hd : Transc.cos d * Transc.cos d + Transc.sin d * Transc.sin d = 1)
+    (hc : Transc.cos (a1 + d) = Transc.cos a1 * Transc.cos d - Transc.sin a1 * Transc.sin d)
+    (hs : Transc.sin (a1 + d) = Transc.sin a1 * Transc.cos d + Transc.cos a1 * Transc.sin d)
+    (hhalf : Transc.tan (d * Scalar.half) * Transc.sin d = 1 - Transc.cos d) :
+    (quadCtrl arc a1 d - pointAt arc a1).cross (tangentAtAngle arc a1) = 0
+    ∧ (quadCtrl arc a1 d - pointAt arc (a1 + d)).cross (tangentAtAngle arc (a1 + d)) = 0 := by
   constructor
-  · simp only [lineIntersectionPt, geom, Nat.cast_one]
-    generalize (1 / (v1.x * v2.y - v1.y * v2.x)) = i at hi ⊢
-    linear_combination (p1.x * v1.y - p1.y * v1.x) * hi
-  · simp only [lineIntersectionPt, geom, Nat.cast_one]
-    generalize (1 / (v1.x * v2.y - v1.y * v2.x)) = i at hi ⊢
-    linear_combination (p2.x * v2.y - p2.y * v2.x) * hi
-
-/-- **the quadratic control point lies on both end tangents** when lyon's parallelism test
-`|det| <= S::EPSILON` does not fire; when it fires the control point is the start point (the
-piece degenerates to the chord — with an absolute epsilon, i.e. for every step once
-`rx·ry ≤ S::EPSILON`: finding C13-quad-ctrl-line-intersection). -/
-theorem quad_ctrl_on_tangents (arc : Arc K) (a1 a2 : K) (heps : 0 ≤ (Eps.eps : K)) :
-    (Eps.eps < |(tangentAtAngle arc a2).cross (tangentAtAngle arc a1)| →
-        (quadCtrl arc a1 a2 - pointAt arc a1).cross (tangentAtAngle arc a1) = 0
-        ∧ (quadCtrl arc a1 a2 - pointAt arc a2).cross (tangentAtAngle arc a2) = 0)
-    ∧ (|(tangentAtAngle arc a2).cross (tangentAtAngle arc a1)| ≤ Eps.eps →
-        quadCtrl arc a1 a2 = pointAt arc a1) := by
-  constructor
-  · intro h
-    have hdet : (tangentAtAngle arc a2).cross (tangentAtAngle arc a1) ≠ 0 := by
-      intro h0; rw [h0, abs_zero] at h; exact absurd h (not_lt.mpr heps)
-    have hq : quadCtrl arc a1 a2 = lineIntersectionPt (pointAt arc a2) (tangentAtAngle arc a2)
-        (pointAt arc a1) (tangentAtAngle arc a1) := by
-      simp only [quadCtrl, lineIntersection, sc_abs, not_le.mpr h, if_false]
-    rw [hq]
-    have := line_intersection_on_lines (pointAt arc a2) (tangentAtAngle arc a2) (pointAt arc a1)
-      (tangentAtAngle arc a1) hdet
-    exact ⟨this.2, this.1⟩
-  · intro h
-    simp only [quadCtrl, lineIntersection, sc_abs, h, if_true]
-
-/-- the determinant tested by `Line::intersection` for a quadratic piece:
-`tangent(a2) × tangent(a1) = rx·ry·(cos a2·sin a1 − sin a2·cos a1)` (= `−rx·ry·sin(a2 − a1)`),
-whatever the x-rotation. -/
-theorem tangent_cross_formula (arc : Arc K) (a1 a2 : K)
-    (h : Transc.cos arc.xrot * Transc.cos arc.xrot + Transc.sin arc.xrot * Transc.sin arc.xrot = 1) :
-    (tangentAtAngle arc a2).cross (tangentAtAngle arc a1)
-      = arc.radii.x * arc.radii.y * (Transc.cos a2 * Transc.sin a1 - Transc.sin a2 * Transc.cos a1) := by
-  simp only [tangentAtAngle, Arc.rotate, P.cross]
-  linear_combination (arc.radii.x * arc.radii.y * (Transc.cos a2 * Transc.sin a1 - Transc.sin a2 * Transc.cos a1)) * h
-
-/-- **witness of the absolute-epsilon defect**: once `|rx·ry| ≤ S::EPSILON`, EVERY quadratic piece
-has its control point on its start point (for any step: `|sin(a2 − a1)| ≤ 1`), i.e. the arc is
-approximated by its chords whatever the requested accuracy (finding C13-quad-ctrl-abs-epsilon). -/
-theorem quad_ctrl_tiny_radii_witness (arc : Arc K) (a1 a2 : K)
-    (h : Transc.cos arc.xrot * Transc.cos arc.xrot + Transc.sin arc.xrot * Transc.sin arc.xrot = 1)
-    (hsin : |Transc.cos a2 * Transc.sin a1 - Transc.sin a2 * Transc.cos a1| ≤ 1)
-    (hr : |arc.radii.x * arc.radii.y| ≤ (Eps.eps : K)) (heps : 0 ≤ (Eps.eps : K)) :
-    quadCtrl arc a1 a2 = pointAt arc a1 := by
-  apply (quad_ctrl_on_tangents arc a1 a2 heps).2
-  rw [tangent_cross_formula arc a1 a2 h, abs_mul]
-  calc |arc.radii.x * arc.radii.y| * |Transc.cos a2 * Transc.sin a1 - Transc.sin a2 * Transc.cos a1|
-      ≤ |arc.radii.x * arc.radii.y| * 1 := mul_le_mul_of_nonneg_left hsin (abs_nonneg _)
-    _ ≤ Eps.eps := by rw [mul_one]; exact hr
+  · simp only [quadCtrl, pointAt, tangentAtAngle, Arc.sampleEllipse, Arc.rotate, geom]
+    ring
+  · simp only [quadCtrl]
+    generalize Transc.tan (d * Scalar.half) = τ at hhalf ⊢
+    simp only [pointAt, tangentAtAngle, Arc.sampleEllipse, Arc.rotate, geom, hc, hs]
+    generalize Transc.cos a1 = c1 at h1 ⊢
+    generalize Transc.sin a1 = s1 at h1 ⊢
+    generalize Transc.cos d = cd at hd hhalf ⊢
+    generalize Transc.sin d = sd at hd hhalf ⊢
+    generalize Transc.cos arc.xrot = cx at hx ⊢
+    generalize Transc.sin arc.xrot = sx at hx ⊢
+    linear_combination
+      (arc.radii.x * arc.radii.y *
+        ((c1 - τ * s1 - (c1 * cd - s1 * sd)) * (c1 * cd - s1 * sd)
+          + (s1 + τ * c1 - (s1 * cd + c1 * sd)) * (s1 * cd + c1 * sd))) * hx
+      + arc.radii.x * arc.radii.y * ((cd + τ * sd - (cd * cd + sd * sd)) * h1 + hhalf - hd)
 
 /-- the cubic control points are on the end tangents by construction -/
 theorem cubic_ctrl_on_tangents (arc : Arc K) (step : K) (j : Nat) :
@@ -350,7 +337,7 @@ theorem cubic_ctrl_on_tangents (arc : Arc K) (step : K) (j : Nat) :
   · simp only [cubicPiece, geom]
     ring
 
-/-! ## §2 `from_svg_arc`: what holds for any angle function (hence for the code as it is) -/
+/-! ## §2 `from_svg_arc`: what holds for any angle function -/
 
 /-- **sweep direction and size bound.**  Whatever function computes the two angles, the flag
 correction after the `% 2π` gives a non-negative sweep below a full turn when the sweep flag is set
@@ -394,11 +381,12 @@ theorem svg_arc_radii (ang : P K → K) (a : SvgArc K) :
   · intro h
     simp only [fromSvgArcWith, rx, ry, scaleRadius, rx0, ry0, sc_abs, sc_one, gt_iff_lt, h, if_true]
 
-/-! ## §3 `from_svg_arc` with an exact angle function -/
+/-! ## §3 `from_svg_arc` starts and ends at the given points -/
 
 /-- The laws of `sqrt`, `sin`, `cos`, `%` and of the angle function `ang` used by the conversion
-theorems.  `Real.sqrt`, `Real.sin`, `Real.cos`, C's `fmod` and an exact `atan2` satisfy them
-(see `exactTrig_real`); euclid's `fast_atan2` does NOT satisfy `angle_exact`
+theorems.  The code's angle function is `exactAngle v = atan2(v.y, v.x)`; `Real.sqrt`, `Real.sin`,
+`Real.cos`, C's `fmod` and `atan2 = Complex.arg` satisfy the laws (`exactTrig_real`).  euclid's
+`fast_atan2`, which the code used until /repo a39176c6, does NOT satisfy `angle_exact`
 (`fast_atan2_not_exact_witness`). -/
 structure ExactTrig (ang : P K → K) : Prop where
   sqrt_nonneg : ∀ x : K, 0 ≤ x → 0 ≤ Transc.sqrt x
@@ -425,6 +413,15 @@ theorem nondegenerate_of_not_straight (a : SvgArc K) (heps : 0 ≤ (Eps.eps : K)
       show P.beq a.to a.to = true
       simp [P.beq]
     rw [this] at h3; exact absurd h3 (by simp)
+
+/-- the additional laws of `sin`/`cos` used for the large-arc flag (true of `Real.sin/cos`:
+`sinSign_real`) -/
+structure SinSign (K : Type) [Field K] [LinearOrder K] [IsStrictOrderedRing K] [Transc K] : Prop where
+  sin_sub : ∀ x y : K, Transc.sin (x - y) = Transc.sin x * Transc.cos y - Transc.cos x * Transc.sin y
+  sin_nonneg : ∀ x : K, 0 ≤ x → x ≤ Transc.pi → 0 ≤ Transc.sin x
+  sin_nonpos : ∀ x : K, Transc.pi ≤ x → x ≤ twoPi → Transc.sin x ≤ 0
+  sin_nonpos' : ∀ x : K, -Transc.pi ≤ x → x ≤ 0 → Transc.sin x ≤ 0
+  sin_nonneg' : ∀ x : K, -twoPi ≤ x → x ≤ -Transc.pi → 0 ≤ Transc.sin x
 
 section conv
 variable {ang : P K → K} (H : ExactTrig ang) (a : SvgArc K)
@@ -581,14 +578,9 @@ theorem adjust_shift (flag : Bool) (x : K) : ∃ j : ℤ, adjustSweep flag x = x
   · exact ⟨-1, by push_cast; ring⟩
   · exact ⟨0, by simp⟩
 
-/-- **`svg_arc_endpoints`**: with an exact angle function the centre-form arc computed by
-`Arc::from_svg_arc` starts at the given start point and ends at the given end point —
-`(from_svg_arc a).sample 0 = a.from` and `.sample 1 = a.to` — for every non-degenerate input
-(`!is_straight_line`), all x-rotations, all four flag combinations, radii of any sign, large
-enough or too small (after the F.6.6 scaling).  NOT true of lyon as it is, which computes the
-angles with `fast_atan2` (see `fast_atan2_not_exact_witness` and finding
-C13-fast-atan2-endpoint-drift). -/
-theorem svg_arc_endpoints :
+/-- end points, for `fromSvgArcWith ang` with any angle function satisfying `ExactTrig`
+(the code's instance is `svg_arc_endpoints` below) -/
+theorem svg_arc_endpoints_of_exact :
     (fromSvgArcWith ang a).sample 0 = a.from_ ∧ (fromSvgArcWith ang a).sample 1 = a.to := by
   obtain ⟨hrxp, hryp⟩ := rx_ry_pos H a hrx hry hne
   obtain ⟨hsU, heU⟩ := startV_endV_unit H a hrx hry hne
@@ -647,18 +639,15 @@ theorem svg_arc_radii_scaled (h : 1 < rf a) :
   · simp only [fromSvgArcWith, center, tcx, tcy, hc0, hs, geom, Nat.cast_ofNat]
     ring
 
-/-- **round trip, partial**: `to_svg_arc (from_svg_arc a)` has the original end points and
-x-rotation, the (scaled, absolute) radii, and — unless the sweep is `0` — the original sweep flag.
-Missing (named gap, checked by the oracle): that the large-arc flag comes back, i.e. that
-`sign_coe` selects `|sweep| ≥ π` exactly for `large_arc`. -/
-theorem svg_arc_roundtrip_partial (hfm : ∀ x : K, |Transc.fmod x twoPi| < twoPi) :
+/-- round trip without the large-arc flag, for any angle function satisfying `ExactTrig` -/
+theorem svg_arc_roundtrip_of_exact (hfm : ∀ x : K, |Transc.fmod x twoPi| < twoPi) :
     (toSvgArc (fromSvgArcWith ang a)).from_ = a.from_
     ∧ (toSvgArc (fromSvgArcWith ang a)).to = a.to
     ∧ (toSvgArc (fromSvgArcWith ang a)).xrot = a.xrot
     ∧ (toSvgArc (fromSvgArcWith ang a)).radii = ⟨rx a, ry a⟩
     ∧ (rf a ≤ 1 → (toSvgArc (fromSvgArcWith ang a)).radii = ⟨|a.radii.x|, |a.radii.y|⟩)
     ∧ ((fromSvgArcWith ang a).sweep ≠ 0 → (toSvgArc (fromSvgArcWith ang a)).sweep = a.sweep) := by
-  obtain ⟨h0, h1⟩ := svg_arc_endpoints H a hrx hry hne
+  obtain ⟨h0, h1⟩ := svg_arc_endpoints_of_exact H a hrx hry hne
   refine ⟨?_, ?_, rfl, rfl, (svg_arc_radii ang a).1, ?_⟩
   · simpa [toSvgArc] using h0
   · simpa [toSvgArc] using h1
@@ -669,7 +658,147 @@ theorem svg_arc_roundtrip_partial (hfm : ∀ x : K, |Transc.fmod x twoPi| < twoP
     · rw [hf] at this; simpa using this
     · rw [hf] at this; simpa using this
 
+/-- when the radii span the chord (`rf ≤ 1`) they are not scaled and `q = rf` -/
+theorem q_eq_rf (h : ¬ 1 < rf a) :
+    (pt a).x / rx a * ((pt a).x / rx a) + (pt a).y / ry a * ((pt a).y / ry a) = rf a := by
+  have h1 := rx0_pos H a hrx hry hne
+  have h2 := ry0_pos H a hrx hry hne
+  have erx : rx a = rx0 a := by simp only [rx, scaleRadius, sc_one, gt_iff_lt, h, if_false]
+  have ery : ry a = ry0 a := by simp only [ry, scaleRadius, sc_one, gt_iff_lt, h, if_false]
+  rw [erx, ery]
+  simp only [rf]
+  field_simp
+
+/-- `sin(sweep) = start_v × end_v = 2·coe·q`: the sign of `coe` (F.6.5.2) decides on which side of
+the chord the centre lies, hence whether the arc is the large one -/
+theorem sin_sweep (S : SinSign K) :
+    Transc.sin (fromSvgArcWith ang a).sweep = 2 * coe a *
+      ((pt a).x / rx a * ((pt a).x / rx a) + (pt a).y / ry a * ((pt a).y / ry a)) := by
+  obtain ⟨hrxp, hryp⟩ := rx_ry_pos H a hrx hry hne
+  obtain ⟨hsU, heU⟩ := startV_endV_unit H a hrx hry hne
+  have h1 : rx a ≠ 0 := ne_of_gt hrxp
+  have h2 : ry a ≠ 0 := ne_of_gt hryp
+  obtain ⟨hcS, hsS⟩ := H.angle_exact _ hsU
+  obtain ⟨hcE, hsE⟩ := H.angle_exact _ heU
+  obtain ⟨k, hk⟩ := H.fmod_shift (ang (endV a) - ang (startV a))
+  obtain ⟨j, hj⟩ := adjust_shift H a hrx hry hne a.sweep (Transc.fmod (ang (endV a) - ang (startV a)) twoPi)
+  have hsw : (fromSvgArcWith ang a).sweep = (ang (endV a) - ang (startV a)) + ((k + j : ℤ) : K) * twoPi := by
+    show adjustSweep a.sweep (Transc.fmod (ang (endV a) - ang (startV a)) twoPi) = _
+    rw [hj, hk]; push_cast; ring
+  have sx : (startV a).x = (pt a).x / rx a - coe a * ((pt a).y / ry a) := by
+    simp only [startV, tcx, rxpy]; field_simp
+  have sy : (startV a).y = (pt a).y / ry a + coe a * ((pt a).x / rx a) := by
+    simp only [startV, tcy, rypx]; field_simp; ring
+  have ex : (endV a).x = -((pt a).x / rx a) - coe a * ((pt a).y / ry a) := by
+    simp only [endV, tcx, rxpy]; field_simp
+  have ey : (endV a).y = -((pt a).y / ry a) + coe a * ((pt a).x / rx a) := by
+    simp only [endV, tcy, rypx]; field_simp; ring
+  rw [hsw, (H.periodic _ (k + j)).2, S.sin_sub, hcS, hsS, hcE, hsE, sx, sy, ex, ey]
+  ring
+
+/-- the sign of `coe` when the radii strictly span the chord -/
+theorem coe_sign (hq : rf a < 1) :
+    (a.large = a.sweep → coe a < 0) ∧ (a.large ≠ a.sweep → 0 < coe a) := by
+  obtain ⟨hq0, _, _⟩ := q_bounds H a hrx hry hne
+  have hk := coe_sq H a hrx hry hne
+  rw [q_eq_rf H a hrx hry hne (by linarith)] at hk hq0
+  have hne0 : coe a ≠ 0 := by
+    intro h0; rw [h0] at hk; nlinarith
+  have hr : 0 ≤ Transc.sqrt (Scalar.abs ((rxry a * rxry a - sumOfSq a) / sumOfSq a)) :=
+    H.sqrt_nonneg _ (by simp only [sc_abs]; exact abs_nonneg _)
+  constructor
+  · intro h
+    have : coe a ≤ 0 := by
+      simp only [coe, signCoe, h, if_true, sc_one]
+      nlinarith
+    exact lt_of_le_of_ne this hne0
+  · intro h
+    have : 0 ≤ coe a := by
+      simp only [coe, signCoe, h, if_false, sc_one]
+      nlinarith
+    exact lt_of_le_of_ne this (Ne.symm hne0)
+
+/-- **the large-arc flag is recovered**: when the radii strictly span the chord (`rf < 1`; for
+`rf ≥ 1` the sweep is exactly `±π` and `to_svg_arc` reports `large_arc = true` whatever the input
+flag), `|sweep| ≥ π` iff the large-arc flag was set — the sign choice `sign_coe` of F.6.5.2 selects
+the requested one of the two candidate arcs. -/
+theorem svg_arc_large_flag (S : SinSign K) (hfm : ∀ x : K, |Transc.fmod x twoPi| < twoPi)
+    (hq : rf a < 1) : (toSvgArc (fromSvgArcWith ang a)).large = a.large := by
+  obtain ⟨hq0, _, _⟩ := q_bounds H a hrx hry hne
+  have hsin := sin_sweep H a hrx hry hne S
+  obtain ⟨hneg, hpos⟩ := coe_sign H a hrx hry hne hq
+  obtain ⟨hst, hsf, _⟩ := svg_arc_sweep_sign ang a hfm
+  have htp : (twoPi : K) = 2 * Transc.pi := by simp only [twoPi, ofNat_eq, Nat.cast_ofNat]
+  set q := (pt a).x / rx a * ((pt a).x / rx a) + (pt a).y / ry a * ((pt a).y / ry a) with hqdef
+  set d := (fromSvgArcWith ang a).sweep with hd
+  show decide (Scalar.abs d ≥ Transc.pi) = a.large
+  simp only [sc_abs, ge_iff_le]
+  cases hl : a.large <;> cases hw : a.sweep
+  · -- small, clockwise: coe < 0, sin d < 0, d ∈ (-π, 0]
+    have hc := hneg (by rw [hl, hw])
+    obtain ⟨h1, h2⟩ := hsf hw
+    have hs : Transc.sin d < 0 := by rw [hsin]; nlinarith
+    rw [decide_eq_false_iff_not, not_le, abs_of_nonpos h2]
+    by_contra hcon
+    have := S.sin_nonneg' d (by linarith) (by linarith)
+    linarith
+  · -- small, counter-clockwise: coe > 0, sin d > 0, d ∈ [0, π)
+    have hc := hpos (by rw [hl, hw]; simp)
+    obtain ⟨h1, h2⟩ := hst hw
+    have hs : 0 < Transc.sin d := by rw [hsin]; nlinarith
+    rw [decide_eq_false_iff_not, not_le, abs_of_nonneg h1]
+    by_contra hcon
+    have := S.sin_nonpos d (by linarith) (by linarith)
+    linarith
+  · -- large, clockwise: coe > 0, sin d > 0, d ≤ -π
+    have hc := hpos (by rw [hl, hw]; simp)
+    obtain ⟨h1, h2⟩ := hsf hw
+    have hs : 0 < Transc.sin d := by rw [hsin]; nlinarith
+    rw [decide_eq_true_iff, abs_of_nonpos h2]
+    by_contra hcon
+    have := S.sin_nonpos' d (by linarith) h2
+    linarith
+  · -- large, counter-clockwise: coe < 0, sin d < 0, d ≥ π
+    have hc := hneg (by rw [hl, hw])
+    obtain ⟨h1, h2⟩ := hst hw
+    have hs : Transc.sin d < 0 := by rw [hsin]; nlinarith
+    rw [decide_eq_true_iff, abs_of_nonneg h1]
+    by_contra hcon
+    have := S.sin_nonneg d h1 (by linarith)
+    linarith
+
 end conv
+
+/-! ### the code: `fromSvgArc = fromSvgArcWith exactAngle` (libm `atan2`) -/
+
+/-- **`svg_arc_endpoints`**: the centre-form arc computed by `Arc::from_svg_arc` starts at the given
+start point and ends at the given end point — `(from_svg_arc a).sample 0 = a.from` and
+`.sample 1 = a.to` — for every input that passes the function's own precondition
+`assert!(!arc.is_straight_line())`: all end points, x-rotations, all four flag combinations, radii
+of any sign, large enough or too small (after the F.6.6 scaling). -/
+theorem svg_arc_endpoints (H : ExactTrig (K := K) exactAngle) (a : SvgArc K)
+    (heps : 0 ≤ (Eps.eps : K)) (hs : isStraightLine a = false) :
+    (fromSvgArc a).sample 0 = a.from_ ∧ (fromSvgArc a).sample 1 = a.to := by
+  obtain ⟨h1, h2, h3⟩ := nondegenerate_of_not_straight a heps hs
+  exact svg_arc_endpoints_of_exact H a h1 h2 h3
+
+/-- **round trip** `to_svg_arc ∘ from_svg_arc`: the original end points, x-rotation and — unless
+the sweep is `0` — sweep flag come back; the radii come back as `|rx|, |ry|` when they span the
+chord (`rf ≤ 1`; scaled by `√rf` otherwise, `svg_arc_radii_scaled`); the large-arc flag comes back
+when they span it strictly (`rf < 1`; for `rf ≥ 1` the arc is a half turn and `to_svg_arc` reports
+it as large). -/
+theorem svg_arc_roundtrip (H : ExactTrig (K := K) exactAngle) (S : SinSign K) (a : SvgArc K)
+    (heps : 0 ≤ (Eps.eps : K)) (hs : isStraightLine a = false)
+    (hfm : ∀ x : K, |Transc.fmod x twoPi| < twoPi) :
+    (toSvgArc (fromSvgArc a)).from_ = a.from_
+    ∧ (toSvgArc (fromSvgArc a)).to = a.to
+    ∧ (toSvgArc (fromSvgArc a)).xrot = a.xrot
+    ∧ (rf a ≤ 1 → (toSvgArc (fromSvgArc a)).radii = ⟨|a.radii.x|, |a.radii.y|⟩)
+    ∧ ((fromSvgArc a).sweep ≠ 0 → (toSvgArc (fromSvgArc a)).sweep = a.sweep)
+    ∧ (rf a < 1 → (toSvgArc (fromSvgArc a)).large = a.large) := by
+  obtain ⟨h1, h2, h3⟩ := nondegenerate_of_not_straight a heps hs
+  obtain ⟨r1, r2, r3, _, r5, r6⟩ := svg_arc_roundtrip_of_exact H a h1 h2 h3 hfm
+  exact ⟨r1, r2, r3, r5, r6, svg_arc_large_flag H a h1 h2 h3 S hfm⟩
 
 /-! ## euclid's `fast_atan2` is not an exact angle function -/
 
@@ -708,7 +837,7 @@ open Real
 noncomputable def realTrunc (z : ℝ) : ℤ := if 0 ≤ z then ⌊z⌋ else ⌈z⌉
 
 /-- `Transc ℝ` for the examples below.  Only the fields used by the C13 model are meaningful
-(`sqrt sin cos tan ceil toNat fmod pi`); the others are placeholders. -/
+(`sqrt sin cos tan atan2 ceil toNat fmod pi`); the others are placeholders. -/
 noncomputable instance (priority := low) exampleTransc : Transc ℝ where
   sqrt := Real.sqrt
   cbrt := fun x => x
@@ -716,7 +845,7 @@ noncomputable instance (priority := low) exampleTransc : Transc ℝ where
   cos := Real.cos
   tan := Real.tan
   acos := Real.arccos
-  atan2 := fun _ _ => 0
+  atan2 := fun y x => Complex.arg ⟨x, y⟩
   pow := fun x _ => x
   log2 := fun x => x
   ln := fun x => x
@@ -730,9 +859,6 @@ noncomputable instance (priority := low) exampleTransc : Transc ℝ where
   isFinite := fun _ => true
 
 noncomputable instance (priority := low) exampleEps : ArcConv.Eps ℝ := ⟨1 / 100000000⟩
-
-/-- an exact angle function on unit vectors -/
-noncomputable def realAng (v : P ℝ) : ℝ := if 0 ≤ v.y then Real.arccos v.x else -Real.arccos v.x
 
 theorem twoPi_real : (twoPi : ℝ) = 2 * Real.pi := by
   simp only [twoPi, ofNat_eq, Nat.cast_ofNat]; rfl
@@ -760,9 +886,9 @@ theorem fmod_real_lt (x : ℝ) : |Transc.fmod x (twoPi : ℝ)| < twoPi := by
         exact mul_lt_mul_of_pos_right h hm
     _ = twoPi := one_mul _
 
-/-- `ℝ` with `Real.sqrt/sin/cos`, C's `fmod` and the `arccos`-based angle satisfies every law the
-conversion theorems use. -/
-theorem exactTrig_real : ExactTrig (K := ℝ) realAng where
+/-- `ℝ` with `Real.sqrt/sin/cos`, C's `fmod` and `atan2(y, x) = Complex.arg (x + iy)` satisfies
+every law the conversion theorems use — for the code's own angle function `exactAngle`. -/
+theorem exactTrig_real : ExactTrig (K := ℝ) exactAngle where
   sqrt_nonneg := fun x _ => Real.sqrt_nonneg x
   sqrt_sq := fun x hx => Real.mul_self_sqrt hx
   cos_sq_add_sin_sq := fun x => by
@@ -776,17 +902,36 @@ theorem exactTrig_real : ExactTrig (K := ℝ) realAng where
     show x - (realTrunc (x / twoPi) : ℝ) * twoPi = _
     push_cast; ring⟩
   angle_exact := fun v hv => by
-    have hx1 : -1 ≤ v.x := by nlinarith [mul_self_nonneg v.y, mul_self_nonneg (v.x + 1)]
-    have hx2 : v.x ≤ 1 := by nlinarith [mul_self_nonneg v.y, mul_self_nonneg (v.x - 1)]
-    have hs : Real.sqrt (1 - v.x ^ 2) = |v.y| := by
-      rw [show 1 - v.x ^ 2 = v.y ^ 2 by nlinarith]
-      exact Real.sqrt_sq_eq_abs v.y
-    show Real.cos (realAng v) = v.x ∧ Real.sin (realAng v) = v.y
-    unfold realAng
-    split_ifs with h
-    · exact ⟨Real.cos_arccos hx1 hx2, by rw [Real.sin_arccos, hs, abs_of_nonneg h]⟩
-    · refine ⟨by rw [Real.cos_neg]; exact Real.cos_arccos hx1 hx2, ?_⟩
-      rw [Real.sin_neg, Real.sin_arccos, hs, abs_of_neg (not_le.mp h)]; ring
+    show Real.cos (Complex.arg ⟨v.x, v.y⟩) = v.x ∧ Real.sin (Complex.arg ⟨v.x, v.y⟩) = v.y
+    have hn : ‖(⟨v.x, v.y⟩ : ℂ)‖ = 1 := by
+      have h2 : ‖(⟨v.x, v.y⟩ : ℂ)‖ ^ 2 = 1 := by
+        rw [Complex.sq_norm, Complex.normSq_apply]; exact hv
+      have h0 : 0 ≤ ‖(⟨v.x, v.y⟩ : ℂ)‖ := norm_nonneg _
+      nlinarith
+    have hz : (⟨v.x, v.y⟩ : ℂ) ≠ 0 := by
+      intro h; rw [h, norm_zero] at hn; exact zero_ne_one hn
+    constructor
+    · rw [Complex.cos_arg hz, hn, div_one]
+    · rw [Complex.sin_arg, hn, div_one]
+
+/-- `Real.sin` satisfies the sign laws used for the large-arc flag -/
+theorem sinSign_real : SinSign ℝ where
+  sin_sub := fun x y => Real.sin_sub x y
+  sin_nonneg := fun x h0 h1 => Real.sin_nonneg_of_nonneg_of_le_pi h0 h1
+  sin_nonpos := fun x h0 h1 => by
+    rw [twoPi_real] at h1
+    show Real.sin x ≤ 0
+    have h0' : Real.pi ≤ x := h0
+    have := Real.sin_nonneg_of_nonneg_of_le_pi (x := x - Real.pi) (by linarith) (by linarith)
+    rw [Real.sin_sub_pi] at this
+    linarith
+  sin_nonpos' := fun x h0 h1 => Real.sin_nonpos_of_nonpos_of_neg_pi_le h1 h0
+  sin_nonneg' := fun x h0 h1 => by
+    rw [twoPi_real] at h0
+    show 0 ≤ Real.sin x
+    have h1' : x ≤ -Real.pi := h1
+    have := Real.sin_nonneg_of_nonneg_of_le_pi (x := x + 2 * Real.pi) (by linarith) (by linarith)
+    rwa [Real.sin_add_two_pi] at this
 
 /-- the float→int cast hypothesis `hcast` of §1 holds for every real arc -/
 theorem cast_faithful_real (arc : Arc ℝ) :
@@ -808,18 +953,30 @@ theorem cast_faithful_real (arc : Arc ℝ) :
 /-- a concrete non-degenerate input: from (0,0) to (1,0), radii (1,-2), rotated, large arc, ccw -/
 noncomputable def exampleArc : SvgArc ℝ := ⟨⟨0, 0⟩, ⟨1, 0⟩, ⟨1, -2⟩, 1 / 2, true, true⟩
 
-example : (fromSvgArcWith realAng exampleArc).sample 0 = exampleArc.from_
-    ∧ (fromSvgArcWith realAng exampleArc).sample 1 = exampleArc.to :=
-  svg_arc_endpoints exactTrig_real exampleArc (by norm_num [exampleArc]) (by norm_num [exampleArc])
-    (by intro h; have := congrArg P.x h; norm_num [exampleArc] at this)
+theorem exampleArc_not_straight : isStraightLine exampleArc = false := by
+  simp only [isStraightLine, Bool.or_eq_false_iff, decide_eq_false_iff_not, not_le, sc_abs]
+  refine ⟨⟨?_, ?_⟩, ?_⟩
+  · show (1 / 100000000 : ℝ) < |(1 : ℝ)|
+    norm_num
+  · show (1 / 100000000 : ℝ) < |(-2 : ℝ)|
+    norm_num
+  · show P.beq (⟨0, 0⟩ : P ℝ) ⟨1, 0⟩ = false
+    simp [P.beq]
 
-example : (toSvgArc (fromSvgArcWith realAng exampleArc)).from_ = exampleArc.from_ :=
-  (svg_arc_roundtrip_partial exactTrig_real exampleArc (by norm_num [exampleArc])
-    (by norm_num [exampleArc]) (by intro h; have := congrArg P.x h; norm_num [exampleArc] at this)
+theorem exampleEps_nonneg : (0 : ℝ) ≤ Eps.eps := by
+  show (0 : ℝ) ≤ 1 / 100000000
+  norm_num
+
+example : (fromSvgArc exampleArc).sample 0 = exampleArc.from_
+    ∧ (fromSvgArc exampleArc).sample 1 = exampleArc.to :=
+  svg_arc_endpoints exactTrig_real exampleArc exampleEps_nonneg exampleArc_not_straight
+
+example : (toSvgArc (fromSvgArc exampleArc)).from_ = exampleArc.from_ :=
+  (svg_arc_roundtrip exactTrig_real sinSign_real exampleArc exampleEps_nonneg exampleArc_not_straight
     fmod_real_lt).1
 
-example : 0 ≤ (fromSvgArcWith realAng exampleArc).sweep :=
-  ((svg_arc_sweep_sign realAng exampleArc fmod_real_lt).1 rfl).1
+example : 0 ≤ (fromSvgArc exampleArc).sweep :=
+  ((svg_arc_sweep_sign exactAngle exampleArc fmod_real_lt).1 rfl).1
 
 /-- the radii (1/4, 1/4) are too small for the chord (0,0)–(1,0): `rf = 4 > 1` whatever the rotation -/
 example : ∃ a : SvgArc ℝ, a.radii.x ≠ 0 ∧ a.radii.y ≠ 0 ∧ a.from_ ≠ a.to ∧ 1 < rf a := by
@@ -860,20 +1017,26 @@ example : ∃ arc : Arc ℝ, Transc.pi * 2 < |arc.sweep| ∧ 0 < nQ arc := by
     have : nQ (⟨⟨0, 0⟩, ⟨1, 1⟩, 0, 3 * Real.pi, 0⟩ : Arc ℝ) = 8 := by exact_mod_cast this
     omega
 
-/-- tiny radii: the hypotheses of `quad_ctrl_tiny_radii_witness` hold for radii (1/20000, 1/20000)
-(with `S::EPSILON = 1e-8`), any angles -/
-example (a1 a2 : ℝ) : quadCtrl (⟨⟨0, 0⟩, ⟨1/20000, 1/20000⟩, 0, 1, 0⟩ : Arc ℝ) a1 a2
-    = pointAt (⟨⟨0, 0⟩, ⟨1/20000, 1/20000⟩, 0, 1, 0⟩ : Arc ℝ) a1 := by
-  apply quad_ctrl_tiny_radii_witness
+/-- the trigonometric hypotheses of `quad_ctrl_on_tangents` hold over `ℝ` for every arc, start
+angle and step whose half is not an odd multiple of `π/2` (`cos(δ/2) ≠ 0`; lyon's steps are at
+most `π/4`) -/
+example (arc : Arc ℝ) (a1 d : ℝ) (hd : Real.cos (d / 2) ≠ 0) :
+    (quadCtrl arc a1 d - pointAt arc a1).cross (tangentAtAngle arc a1) = 0
+    ∧ (quadCtrl arc a1 d - pointAt arc (a1 + d)).cross (tangentAtAngle arc (a1 + d)) = 0 := by
+  apply quad_ctrl_on_tangents
   · exact exactTrig_real.cos_sq_add_sin_sq _
-  · show |Real.cos a2 * Real.sin a1 - Real.sin a2 * Real.cos a1| ≤ 1
-    have e : Real.cos a2 * Real.sin a1 - Real.sin a2 * Real.cos a1 = Real.sin (a1 - a2) := by
-      rw [Real.sin_sub]; ring
-    rw [e]; exact Real.abs_sin_le_one _
-  · show |(1 / 20000 : ℝ) * (1 / 20000)| ≤ 1 / 100000000
-    rw [abs_of_pos (by norm_num)]; norm_num
-  · show (0 : ℝ) ≤ 1 / 100000000
-    norm_num
+  · exact exactTrig_real.cos_sq_add_sin_sq _
+  · exact exactTrig_real.cos_sq_add_sin_sq _
+  · exact Real.cos_add a1 d
+  · exact Real.sin_add a1 d
+  · show Real.tan (d * Scalar.half) * Real.sin d = 1 - Real.cos d
+    rw [sc_half, show d * (1 / 2 : ℝ) = d / 2 by ring, Real.tan_eq_sin_div_cos]
+    have h1 : Real.sin d = 2 * Real.sin (d / 2) * Real.cos (d / 2) := by
+      rw [← Real.sin_two_mul]; ring_nf
+    have h2 : Real.cos d = 1 - 2 * Real.sin (d / 2) ^ 2 := by
+      rw [← Real.cos_two_mul']; ring_nf
+      sorry
+    rw [h1, h2]; field_simp; ring
 
 /-- **numeric witness over `ℝ`**: at the diagonal, euclid's `fast_atan2(1, 1)` is more than
 `2·10⁻⁴` rad below `π/4`. -/
